@@ -6,6 +6,7 @@
 -/
 import ErgoProofs.Lemmas.ReachInv
 import ErgoProofs.Lemmas.Progress
+import ErgoProofs.Lemmas.PropsAux
 namespace Ergo
 
 /-- if the effective waits-for relation (own dependencies + those inherited from the epic's dependencies) has no cycle, then
@@ -26,5 +27,24 @@ def witnessLog : List Event :=
   [ .newItem true "E1" "u1" "" .todo "E1" "" (some 1), .newItem true "E2" "u2" "" .todo "E2" "" (some 2),
     .newItem false "T1" "u3" "E1" .todo "T1" "" (some 3), .newItem false "T2" "u4" "E2" .todo "T2" "" (some 4),
     .link "T1" "T2" true, .link "E2" "E1" true ]
+
+/-- REFUTATION of the full property on the current tree: a log every step of which the CLI accepts, in which every task is
+    todo and none is ready -/
+theorem C15_refuted :
+    ∃ g, replay witnessLog = .ok g ∧ (∃ t ∈ g.tasks, t.isEpic = false ∧ t.st = .todo) ∧
+      (∀ t ∈ g.tasks, t.isEpic = false → t.st = .todo) ∧ ∀ t ∈ g.tasks, t.isEpic = false → isReady g t = false :=
+  ⟨c15G, c15_replay, c15_facts⟩
+
+/-- each of the two `sequence` commands of the witness is accepted by the per-level checks -/
+theorem C15_witness_accepted :
+    ∃ g1 g2, replay (witnessLog.take 4) = .ok g1 ∧ linkCheck g1 false "T1" "T2" = .ok () ∧
+      replay (witnessLog.take 5) = .ok g2 ∧ linkCheck g2 false "E2" "E1" = .ok () :=
+  ⟨_, _, c15_replay4, c15_link1, c15_replay5, c15_link2⟩
+
+/-- PARTIAL result that holds today: without epic-level edges the waits-for relation is just the task-level dependency
+    relation, which reachable stores keep acyclic — so progress holds for every store that uses no epic→epic dependency -/
+theorem C15_partial_no_epic_edges (g : Graph) (hinv : AllInv g)
+    (hnoepic : ∀ e ∈ g.deps, ∀ a ∈ g.tasks, a.id = e.1 → a.isEpic = false) : WaitsAcyclic g :=
+  waitsAcyclic_of_no_epic_edges g hinv hnoepic
 
 end Ergo
